@@ -5,13 +5,13 @@
 package sut
 
 import (
-	"io"
 	"bytes"
 	"context"
 	"crypto/sha256"
 	"encoding/hex"
 	"errors"
 	"fmt"
+	"io"
 	"io/fs"
 	"os"
 	"os/exec"
@@ -92,18 +92,21 @@ func Build(out string, o BuildOpts) error {
 
 // Cmd describes one execution of the CLI.
 type Cmd struct {
-	Bin     string
-	Args    []string
-	Stdin   []byte
+	Bin   string
+	Args  []string
+	Stdin []byte
 	// StdinMode says how the bytes of Stdin reach the process: "" = a pipe written in one go, "split" = a pipe
 	// written in two pieces with a pause between them, "dribble" = a pipe written in pieces of 7 bytes,
 	// "file" = a regular file opened as descriptor 0.
 	StdinMode string
 	Dir       string
-	Env     []string // extra KEY=VALUE entries
-	Timeout time.Duration
-	Strace  string // if non-empty, path of the strace log to write
-	retries int
+	Env       []string // extra KEY=VALUE entries
+	Timeout   time.Duration
+	Strace    string // if non-empty, path of the strace log to write
+	// Inject makes every system call of kind InjectCall ("read" | "write") on the file InjectPath fail with
+	// InjectErr (e.g. "EIO", "ENOSPC"); the strace log (Strace must be set) then carries "(INJECTED)" lines.
+	InjectPath, InjectCall, InjectErr string
+	retries                           int
 }
 
 // pieces hands data out in pieces of at most size bytes and pauses before every piece but the first, so that the
@@ -205,7 +208,11 @@ func Run(c Cmd) *Result {
 	ctx, cancel := context.WithTimeout(context.Background(), to+5*time.Second)
 	defer cancel()
 	var cmd *exec.Cmd
-	if c.Strace != "" {
+	if c.Strace != "" && c.InjectPath != "" {
+		args := []string{"-f", "-qq", "-e", "signal=none", "-o", c.Strace, "-P", c.InjectPath, "-e", "trace=" + c.InjectCall, "-e", "inject=" + c.InjectCall + ":error=" + c.InjectErr, c.Bin}
+		args = append(args, c.Args...)
+		cmd = exec.CommandContext(ctx, "strace", args...)
+	} else if c.Strace != "" {
 		args := []string{"-f", "-qq", "-e", "signal=none", "-o", c.Strace,
 			"-e", "trace=%file,ftruncate,fchmod,fchown,fchmodat,fchownat", c.Bin}
 		args = append(args, c.Args...)
